@@ -849,7 +849,8 @@ def make_surface(spec: dict):
         return dwell_surface()(spec["d"]), [(-2.0, 2.0)] + [(0.0, 1.0)] * (spec["d"] - 1)
     Cos, Sep, Bowl = surfaces()
     if spec["kind"] == "fdquad":
-        return fdquad_surface(spec["d"], spec["seed"]), [(-1.0, 1.0)] * spec["d"]
+        first = tuple(spec["first_box"]) if spec.get("first_box") else (-1.0, 1.0)
+        return fdquad_surface(spec["d"], spec["seed"]), [(float(first[0]), float(first[1]))] + [(-1.0, 1.0)] * (spec["d"] - 1)
     if spec["kind"] == "bowl":
         return Bowl(), [(-1.0, 1.0)] * spec["d"]
     if spec["kind"] == "cos":
@@ -1437,9 +1438,18 @@ def predicates(ctx: Ctx) -> None:
         spec = {"kind": "fdquad", "d": d, "seed": rng.randrange(10 ** 6), "tol": 1e-5, "pushoff": 0.2,
                 "hef": {"max_uphill_step_size": 0.2, "positive_eigenvalue_step": 0.05}}
         x0 = [rng.uniform(-0.5, 0.5) for _ in range(d)]
+        if k % 2 == 1:
+            # the stationary point of the surface lies beyond the first wall, so the saddle sits ON that wall — a wall whose
+            # value (0.3, 3, -3, 1.5: not a power of two) does not survive `x + h - 2h + h` in floating point: the inherited
+            # finite differences must not move the point they are asked about
+            lo = rng.choice([0.3, 0.35, 0.7])
+            spec["first_box"] = [lo, rng.choice([1.5, 3.0, 10.0])] if rng.random() < 0.5 else [-rng.choice([1.5, 3.0, 10.0]), -lo]
+            x0[0] = spec["first_box"][0] + (spec["first_box"][1] - spec["first_box"][0]) * rng.uniform(0.02, 0.3) \
+                if spec["first_box"][0] > 0 else spec["first_box"][1] - (spec["first_box"][1] - spec["first_box"][0]) * rng.uniform(0.02, 0.3)
         seed = rng.randrange(2 ** 31)
         r = pred_search(spec, x0, seed, 80)
-        ctx.stats.case({"stream": "predicate-search-finite-difference-surface", "d": d, "x0": V(x0)}, True)
+        ctx.stats.case({"stream": "predicate-search-finite-difference-surface", "d": d, "x0": V(x0),
+                        "first_box": spec.get("first_box")}, True)
         outcomes["fd:" + ("fail" if r else "ok")] = outcomes.get("fd:" + ("fail" if r else "ok"), 0) + 1
         if r:
             ctx.fail(r[0] + ":finite-difference-surface", r[1], {"kind": "search", "surface": spec, "x0": x0, "np_seed": seed,
